@@ -38,6 +38,12 @@ P = {
  "C01": ("model_checking", "Durability.tla (sync/ack/rollover protocol) model-checked by TLC; hook-recorded traces of real runs validated by TLC against TraceDurability.tla",
          "TLC explores Durability.tla exhaustively (AckedDurable, AckedPublished, PublishedFindable, ReaderNeverMisses, PublishedMonotone). Real runs (EventStore-generated histories incl. rejected/failed appends, rollovers, 4 concurrent clients, close+reopen; sync-per-append vs timer sync, compression on/off) are recorded through cfg-gated hooks at fsync/publish/reply/rollover points plus client-side acknowledgements and read-after-ack results; TLC replays the trace line by line through the specification's actions and evaluates every invariant in every state; reads right after each acknowledgement and after reopen are also compared with the reference model.",
          "fsync observed at the hook after File::sync_data returns; traces are single-bucket; byte offsets are converted to the model's unit (completed transactions) before validation.", "5/C01", "h-store"),
+ "C05": ("fault_enumeration", "Recovery.tla (record-level crash/recover model) checked by TLC; its crash classes expanded to byte-level crash images of a real data directory and reopened",
+         "Recovery.tla enumerates histories x acknowledged prefix x (complete tail records, torn) and TLC checks RecoversPrefix; each class is expanded to concrete crash images (every record boundary, byte positions inside the next record, zero tail) of a real database directory, each reopened with DatabaseBuilder::open, all read APIs compared with the model after the kept transactions, then an append must continue sequences and versions.",
+         "A process crash keeps every byte that reached write(2); index files of the open segment are as at the last acknowledgement.", "5/C05", "h-store"),
+ "C20": ("model_checking", "Durability.tla liveness (every reply is eventually acknowledged) checked by TLC under fairness; hook traces of concurrent real runs validated against TraceDurability.tla with a wall-clock deadline",
+         "TLC checks EveryAppendCompletes on Durability.tla with liveness on (3 transactions, rollover, failed write, weak fairness of fsync/publish/reply/rollover). Concurrent clients run every sync configuration on a real Database with frequent rollovers; each call must return within the deadline and each run's hook trace must be accepted by TraceDurability.tla, which requires no reply left unacknowledged.",
+         "Bounded time = liveness under fairness in the model + 5 s wall-clock bound on real runs; never-syncing library configuration excluded.", "5/C20", "h-store"),
 }
 
 NOT_YET = "not yet built in this session (planned: see DESIGN.md section 5); no claim is made"
